@@ -880,6 +880,9 @@ func (c *cluster) replicate(f *cnode) {
 // not happen (an injected failure, which must surface unchanged and leave the
 // store alone, or a violation).
 func (c *cluster) deleteVia(n *cnode, lo, hi uint64) bool {
+	if len(n.queued) > 0 {
+		c.probes.Add("truncation_with_reports_pending", 1)
+	}
 	firedBefore := n.wrap.firedDelete
 	f0, l0 := n.mem.first, n.mem.last
 	err := n.ls.DeleteRange(lo, hi)
